@@ -58,6 +58,7 @@ def shards(tier):
     k = (len(hs) + n - 1) // n
     out = [("states", hs[i:i + k]) for i in range(0, len(hs), k)]
     out.append(("orders", None))
+    out.append(("numtypes", None))
     return out
 
 
@@ -147,6 +148,8 @@ def run_shard(shard, tier):
            "outcomes": {}, "traces_validated_against_impl": 0, "keys": {}}
     if shard[0] == "orders":
         return check_orders(res)
+    if shard[0] == "numtypes":
+        return check_numtypes(res)
     from vlib import mgraph
 
     for hist in shard[1]:
@@ -166,6 +169,57 @@ def run_shard(shard, tier):
                                       "class": f.split(":")[0][:60]})
     if shard[1]:
         res["samples"].append(f"{shard[1][0][0]} -> {' -> '.join(shard[1][0][1]) or '(start)'}")
+    return res
+
+
+def check_numtypes(res):
+    """equal objects serialise equally whatever numeric type their numbers arrived in (int, float, numpy scalars): the key is a
+    hash of the JSON text, so 10 and 10.0 must not both occur"""
+    import itertools
+
+    import numpy as np
+    from pharmpy.model import Parameter, Parameters
+    from pharmpy.workflows.hashing import ModelHash
+
+    from vlib import mgraph
+
+    conv = {"float": float, "int": int, "np.int64": np.int64, "np.float64": np.float64, "np.int32": np.int32}
+    base = mgraph.start_models()["pheno"]
+    vals = {"init": 2, "lower": 0, "upper": 10}
+    ref = Parameter.create("P", float(vals["init"]), lower=float(vals["lower"]), upper=float(vals["upper"]))
+    ref_json = json.dumps(ref.to_dict(), sort_keys=True)
+    ref_key = str(ModelHash(base.replace(parameters=Parameters.create(list(base.parameters) + [ref]))))
+    for field, (tname, t) in itertools.product(("init", "lower", "upper", "all"), conv.items()):
+        kw = {k: (t(v) if field in (k, "all") else float(v)) for k, v in vals.items()}
+        res["states"] += 1
+        res["evaluations"] += 1
+        res["transitions"] += 1
+        text = f"Parameter.create('P', {field} given as {tname})"
+        try:
+            p = Parameter.create("P", kw["init"], lower=kw["lower"], upper=kw["upper"])
+        except Exception as e:
+            res["outcomes"]["numtypes:refused"] = res["outcomes"].get("numtypes:refused", 0) + 1
+            continue
+        fails = []
+        if p != ref:
+            fails.append("not equal to the parameter created from floats")
+        else:
+            res["distinct_nontrivial"] += 1
+            try:
+                js = json.dumps(p.to_dict(), sort_keys=True)
+                if js != ref_json:
+                    fails.append(f"equal parameters serialise differently: {js} vs {ref_json}")
+            except (TypeError, ValueError) as e:
+                fails.append(f"to_dict() cannot be dumped to JSON: {str(e)[:80]}")
+            try:
+                key = str(ModelHash(base.replace(parameters=Parameters.create(list(base.parameters) + [p]))))
+                if key != ref_key:
+                    fails.append("two equal models (the parameter bound given as another numeric type) get different database keys")
+            except Exception as e:
+                fails.append(f"ModelHash raises {type(e).__name__}: {str(e)[:80]}")
+        for f in fails:
+            res["violations"].append({"kind": "numtypes", "field": field, "type": tname, "what": f"[{text}] {f}", "class": "numtypes:" + f[:40]})
+    res["samples"].append("Parameter.create with init/lower/upper given as int, float, numpy scalars")
     return res
 
 
@@ -361,6 +415,10 @@ def replay(w):
             return ["replay: history can no longer be built"]
         key = w["what"].split("] ", 1)[-1].split(":")[0]
         return [f for f in check_model(m)[0] if f.startswith(key)]
+    if w["kind"] == "numtypes":
+        res = {"states": 0, "evaluations": 0, "transitions": 0, "distinct_nontrivial": 0, "violations": [], "samples": [], "outcomes": {}}
+        check_numtypes(res)
+        return [v["what"] for v in res["violations"] if v["field"] == w["field"] and v["type"] == w["type"]]
     if w["kind"] == "order":
         res = {"states": 0, "evaluations": 0, "violations": [], "samples": []}
         check_orders(res)
